@@ -16,6 +16,36 @@ mod ownable_ex;
 mod ac_ex;
 #[path = "/repo/examples/fungible-allowlist/src/contract.rs"]
 mod al_ex;
+#[path = "/repo/examples/fee-forwarder-permissioned/src/contract.rs"]
+mod ff_ex;
+#[path = "/repo/examples/timelock-controller/src/contract.rs"]
+mod tl_ex;
+
+/// thin wrapper of the library: a constructor that grants a caller-supplied list of (account, role) pairs through
+/// grant_role_no_auth (like the example constructors do), the low-level no-auth entry points and the two guards
+/// as entry points of their own, and the AccessControl trait with its default methods
+mod bare {
+    use soroban_sdk::{contract, contractimpl, Address, Env, Symbol, Vec};
+    use stellar_access::access_control::{self as ac, AccessControl};
+    #[contract]
+    pub struct Bare;
+    #[contractimpl]
+    impl Bare {
+        pub fn __constructor(e: &Env, admin: Address, accounts: Vec<Address>, roles: Vec<Symbol>) {
+            ac::set_admin(e, &admin);
+            for i in 0..accounts.len() { ac::grant_role_no_auth(e, &accounts.get_unchecked(i), &roles.get_unchecked(i), &admin); }
+        }
+        pub fn grant_na(e: &Env, account: Address, role: Symbol) { ac::grant_role_no_auth(e, &account, &role, &account) }
+        pub fn revoke_na(e: &Env, account: Address, role: Symbol) { ac::revoke_role_no_auth(e, &account, &role, &account) }
+        pub fn set_ra_na(e: &Env, role: Symbol, admin_role: Symbol) { ac::set_role_admin_no_auth(e, &role, &admin_role) }
+        pub fn remove_ra_na(e: &Env, role: Symbol) { ac::remove_role_admin_no_auth(e, &role) }
+        pub fn remove_cnt_na(e: &Env, role: Symbol) { ac::remove_role_accounts_count_no_auth(e, &role) }
+        pub fn ensure_auth(e: &Env, role: Symbol, caller: Address) { ac::ensure_if_admin_or_admin_role(e, &role, &caller) }
+        pub fn ensure_role_ep(e: &Env, role: Symbol, caller: Address) { ac::ensure_role(e, &role, &caller) }
+    }
+    #[contractimpl(contracttrait)]
+    impl AccessControl for Bare {}
+}
 
 type V<T> = std::vec::Vec<T>;
 type S = std::string::String;
@@ -65,7 +95,9 @@ impl World {
     fn new(naddr: usize, role_names: &[S], ntok: u32, start: u32, max_ttl: u32) -> World { World::new_cfg(naddr, role_names, ntok, start, 1, max_ttl, std::cmp::min(max_ttl, 4096)) }
     fn new_cfg(naddr: usize, role_names: &[S], ntok: u32, start: u32, min_ttl: u32, max_ttl: u32, min_persist: u32) -> World { World::new_adm(naddr, role_names, ntok, start, min_ttl, max_ttl, min_persist, 0) }
     /// admin0: the account handed to the constructor as admin
-    fn new_adm(naddr: usize, role_names: &[S], ntok: u32, start: u32, min_ttl: u32, max_ttl: u32, min_persist: u32, admin0: usize) -> World {
+    fn new_adm(naddr: usize, role_names: &[S], ntok: u32, start: u32, min_ttl: u32, max_ttl: u32, min_persist: u32, admin0: usize) -> World { World::new_full(naddr, role_names, ntok, start, min_ttl, max_ttl, min_persist, admin0, false) }
+    /// with_self: the contract's own address becomes account number `naddr` of the universe (a party of calls; it never signs)
+    fn new_full(naddr: usize, role_names: &[S], ntok: u32, start: u32, min_ttl: u32, max_ttl: u32, min_persist: u32, admin0: usize, with_self: bool) -> World {
         let e = Env::default();
         e.cost_estimate().budget().reset_unlimited();
         e.cost_estimate().disable_resource_limits();
@@ -83,6 +115,8 @@ impl World {
         )));
         match reg {
             Ok(cid) => {
+                let mut addrs = addrs;
+                if with_self { addrs.push(cid.clone()); }
                 let mut w = World { e, cid, addrs, roles, ntok, now: start, start, min_ttl, max_ttl, items: vec![], obs0: S::new(), dead: false, admin0 };
                 w.obs0 = w.obs();
                 w
@@ -230,6 +264,13 @@ impl World {
     }
 }
 
+/// Boundary catalogue for every argument of type Symbol (role names): the empty symbol (the library's own sentinel for
+/// "no previous admin role"), names other systems treat as a default admin role, the maximal length (32), a single
+/// character, names differing from a role of the example by case / by one trailing character.
+const LONG32: &str = "a_role_name_of_32_characters_xyz";
+const SENTINEL_ROLES: [&str; 9] = ["", "admin", "DEFAULT_ADMIN_ROLE", LONG32, "_", "a", "MINTER", "minter_", "0"];
+fn is_sentinel(name: &str) -> bool { SENTINEL_ROLES.contains(&name) }
+
 /// authorisation subset for a call whose needed signer is `p`
 fn pick_auths(rng: &mut Rng, p: usize, alt: Option<usize>, naddr: usize) -> V<usize> {
     let other = rng.below(naddr as u64) as usize;
@@ -249,7 +290,7 @@ fn pick_auths(rng: &mut Rng, p: usize, alt: Option<usize>, naddr: usize) -> V<us
 }
 
 /// generator-side classification labels of a call in the situation `s` (never printed into traces)
-fn classify(s: &Snap, call: &Call, admin: Option<usize>, nroles: usize, renounced: bool) -> V<S> {
+fn classify(s: &Snap, call: &Call, admin: Option<usize>, nroles: usize, renounced: bool, names: &[S]) -> V<S> {
     let mut extra: V<S> = vec![];
     match call {
         Call::Grant(acc, r, ca, au) | Call::Revoke(acc, r, ca, au) => {
@@ -261,6 +302,17 @@ fn classify(s: &Snap, call: &Call, admin: Option<usize>, nroles: usize, renounce
             let signed = if au.contains(ca) { "signed" } else { "unsigned" };
             extra.push(format!("{}-by-{}-{}", kind, who, signed));
             if renounced && is_ra { extra.push(format!("{}-by-role-admin-after-admin-renounced", kind)); }
+            // the role has NO admin role configured and the caller is not the admin: whatever role the caller holds
+            // (whatever its name) must not help
+            if !is_admin && s.role_admin[*r].is_none() {
+                let held: V<usize> = (0..nroles).filter(|&x| s.has[x][*ca].is_some()).collect();
+                if held.iter().any(|&x| names[x].is_empty()) { extra.push(format!("{}-no-admin-role-by-holder-of-empty-named-role", kind)); }
+                if held.iter().any(|&x| is_sentinel(&names[x])) { extra.push(format!("{}-no-admin-role-by-holder-of-sentinel-named-role", kind)); }
+                if !held.is_empty() { extra.push(format!("{}-no-admin-role-by-holder-of-some-role", kind)); }
+                if renounced { extra.push(format!("{}-no-admin-role-after-admin-renounced", kind)); }
+            }
+            if names[*r].is_empty() { extra.push(format!("{}-of-empty-named-role", kind)); }
+            if acc == ca { extra.push(format!("{}-self", kind)); }
             if kind == "revoke" {
                 if let Some(i) = s.has[*r][*acc] { let k = s.count[*r]; extra.push(format!("revoke-{}", if k == 1 { "only" } else if i == 0 { "first" } else if i + 1 == k { "last" } else { "middle" })); }
                 else { extra.push("revoke-nonmember".into()); }
@@ -275,7 +327,8 @@ fn classify(s: &Snap, call: &Call, admin: Option<usize>, nroles: usize, renounce
         Call::AcceptAdmin(au) => {
             match s.pending { Some((p, _)) => extra.push(format!("accept_admin-{}", if au.contains(&p) { "by-pending" } else { "by-other" })), None => extra.push("accept_admin-nothing-pending".into()) }
         }
-        Call::TransferAdmin(_, lu, au) => {
+        Call::TransferAdmin(new, lu, au) => {
+            if *lu != 0 && admin == Some(*new) { extra.push("transfer_admin-to-self".into()); }
             let signed = admin.map(|a| au.contains(&a)).unwrap_or(false);
             extra.push(format!("{}-{}", if *lu == 0 { "cancel_admin_transfer" } else { "transfer_admin" }, if signed { "signed" } else { "unsigned" }));
         }
@@ -285,7 +338,10 @@ fn classify(s: &Snap, call: &Call, admin: Option<usize>, nroles: usize, renounce
         }
         Call::BurnFrom(sp, from, tok, _) if sp != from => { extra.push(if s.approved[*tok as usize] == Some(*sp) { "burn_from-approved-spender".into() } else { "burn_from-unapproved-spender".into() }); }
         Call::AdminRestricted(_) | Call::SetRoleAdmin(..) if renounced => extra.push("admin-entry-after-renounce".into()),
-        Call::SetRoleAdmin(r, ar, _) => { if r == ar { extra.push("set-role-admin-self".into()); } else if s.role_admin[*ar] == Some(*r) { extra.push("set-role-admin-cycle".into()); } }
+        Call::SetRoleAdmin(r, ar, _) => {
+            if r == ar { extra.push("set-role-admin-self".into()); } else if s.role_admin[*ar] == Some(*r) { extra.push("set-role-admin-cycle".into()); }
+            if names[*ar].is_empty() { extra.push("set-role-admin-to-empty-named-role".into()); }
+        }
         _ => {}
     }
     extra
@@ -294,7 +350,16 @@ fn classify(s: &Snap, call: &Call, admin: Option<usize>, nroles: usize, renounce
 fn random_ac(out: &mut Out, rng: &mut Rng, len: usize, desc: &str) {
     let naddr = 5usize;
     let nroles = 4usize;
-    let names: V<S> = ["minter", "burner", "manager", "auditor"].iter().map(|s| s.to_string()).collect();
+    // roles 0 and 1 are the example's "minter" / "burner"; the two others are ordinary names in half of the traces and drawn
+    // from the boundary catalogue (the empty symbol in one trace of four) otherwise
+    let mut names: V<S> = ["minter", "burner", "manager", "auditor"].iter().map(|s| s.to_string()).collect();
+    if rng.chance(1, 2) {
+        let i = rng.below(SENTINEL_ROLES.len() as u64) as usize;
+        let j = (i + 1 + rng.below(SENTINEL_ROLES.len() as u64 - 1) as usize) % SENTINEL_ROLES.len();
+        names[2] = if rng.chance(1, 2) { "".to_string() } else { SENTINEL_ROLES[i].to_string() };
+        names[3] = if names[2] == SENTINEL_ROLES[j] { "auditor".to_string() } else { SENTINEL_ROLES[j].to_string() };
+        if rng.chance(1, 2) { names.swap(2, 3); }
+    }
     // host configurations: small max_entry_ttl; the test host's defaults; everything long-lived with min_temp_entry_ttl 16
     // min_temp_entry_ttl = 1 (the admin hand-over inside these traces is judged by the C07 clauses, which prescribe it)
     let (min_ttl, max_ttl, min_persist) = match rng.below(10) { 0..=2 => (1u32, 5000u32, 4096u32), 3..=6 => (1, 6_312_000, 4096), _ => (1, 8_000_000, 7_999_999) };
@@ -418,7 +483,7 @@ fn random_ac(out: &mut Out, rng: &mut Rng, len: usize, desc: &str) {
                 }
             }
         };
-        let extra = classify(&s, &call, admin, nroles, renounced);
+        let extra = classify(&s, &call, admin, nroles, renounced, &names);
         let ok = w.exec(out, &call);
         for l in extra { out.label(&format!("{}/{}", l, if ok { "ok" } else { "fail" })); }
         if ok && matches!(call, Call::RenounceAdmin(_)) { renounced = true; }
@@ -427,15 +492,16 @@ fn random_ac(out: &mut Out, rng: &mut Rng, len: usize, desc: &str) {
 }
 
 fn scripted_ac(out: &mut Out, names: &[&str], naddr: usize, calls: &[Call], desc: &str) { scripted_ac_cfg(out, names, naddr, (1, 5000, 4096), calls, desc) }
-fn scripted_ac_cfg(out: &mut Out, names: &[&str], naddr: usize, cfg: (u32, u32, u32), calls: &[Call], desc: &str) {
+fn scripted_ac_cfg(out: &mut Out, names: &[&str], naddr: usize, cfg: (u32, u32, u32), calls: &[Call], desc: &str) { scripted_ac_full(out, names, naddr, cfg, false, calls, desc) }
+fn scripted_ac_full(out: &mut Out, names: &[&str], naddr: usize, cfg: (u32, u32, u32), with_self: bool, calls: &[Call], desc: &str) {
     let names: V<S> = names.iter().map(|s| s.to_string()).collect();
     let nroles = names.len();
-    let mut w = World::new_cfg(naddr, &names, 2, 100, cfg.0, cfg.1, cfg.2);
+    let mut w = World::new_full(naddr, &names, 2, 100, cfg.0, cfg.1, cfg.2, 0, with_self);
     let mut renounced = false;
     for c in calls {
         if w.dead { break; }
         let s = w.snap();
-        let extra = classify(&s, c, s.admin, nroles, renounced);
+        let extra = classify(&s, c, s.admin, nroles, renounced, &names);
         let ok = w.exec(out, c);
         for l in extra { out.label(&format!("{}/{}", l, if ok { "ok" } else { "fail" })); }
         if ok && matches!(c, Call::RenounceAdmin(_)) { renounced = true; }
@@ -555,10 +621,10 @@ impl AWorld {
     }
 }
 
-const AL_ROLES: [&str; 3] = ["manager", "auditor", "ops"];
+const AL_ROLES: [&str; 4] = ["manager", "auditor", "ops", ""];
 
 fn random_allow(out: &mut Out, rng: &mut Rng, len: usize, desc: &str) {
-    let naddr = 5usize; let nroles = 3usize;
+    let naddr = 5usize; let nroles = AL_ROLES.len();
     let (min_ttl, max_ttl, min_persist) = match rng.below(3) { 0 => (1u32, 5000u32, 4096u32), 1 => (1, 6_312_000, 4096), _ => (1, 8_000_000, 7_999_999) };
     // the constructor's admin and manager vary, sometimes the same account
     let admin0 = rng.below(naddr as u64) as usize; let manager0 = if rng.chance(1, 4) { admin0 } else { rng.below(naddr as u64) as usize };
@@ -602,6 +668,252 @@ fn random_allow(out: &mut Out, rng: &mut Rng, len: usize, desc: &str) {
         w.exec(out, &call);
     }
     w.flush(out, desc, naddr, nroles);
+}
+
+// ------------------------------------------------------------------ constructors with account lists + the no-auth entry points
+#[derive(Clone, Debug)]
+enum Ctor {
+    /// the bare wrapper: admin, the (account, role) pairs granted in order
+    Bare { admin: usize, pairs: V<(usize, usize)> },
+    /// examples/fee-forwarder-permissioned: (admin, manager, executors); roles 0 = "manager", 1 = "executor"
+    FeeFwd { admin: usize, manager: usize, executors: V<usize> },
+    /// examples/timelock-controller: (min_delay, proposers, executors, Option<admin>); roles 0 = "proposer", 1 = "canceller", 2 = "executor";
+    /// admin None = the contract administers itself (its own address must be in the universe)
+    Timelock { proposers: V<usize>, executors: V<usize>, admin: Option<usize> },
+}
+#[derive(Clone, Debug)]
+enum LCallK { Ac(Call), GrantNa(usize, usize), RevokeNa(usize, usize), SetRaNa(usize, usize), RemoveRaNa(usize), RemoveCntNa(usize), EnsureAuth(usize, usize), EnsureRole(usize, usize) }
+
+/// a contract with the AccessControl interface, driven by dynamic invocation; `selfidx` = index of the contract's own
+/// address in the account universe (it can be listed, granted, named as caller - it never signs)
+struct LWorld { e: Env, cid: Address, addrs: V<Address>, roles: V<Symbol>, names: V<S>, now: u32, start: u32, min_ttl: u32, max_ttl: u32, items: V<S>, obs0: S, dead: bool,
+                admin0: usize, ctor: V<(usize, usize)>, selfidx: Option<usize>, bare: bool }
+impl LWorld {
+    fn new(ctor: &Ctor, names: &[&str], naddr: usize, with_self: bool, cfg: (u32, u32, u32)) -> LWorld {
+        let e = Env::default();
+        e.cost_estimate().budget().reset_unlimited();
+        e.cost_estimate().disable_resource_limits();
+        let start = 100u32;
+        e.ledger().with_mut(|l| { l.sequence_number = start; l.min_temp_entry_ttl = cfg.0; l.max_entry_ttl = cfg.1; l.min_persistent_entry_ttl = cfg.2; });
+        let mut addrs: V<Address> = (0..naddr).map(|_| Address::generate(&e)).collect();
+        let cid = Address::generate(&e);
+        let selfidx = if with_self { addrs.push(cid.clone()); Some(naddr) } else { None };
+        let roles: V<Symbol> = names.iter().map(|s| Symbol::new(&e, s)).collect();
+        let av = |l: &V<usize>| -> soroban_sdk::Vec<Address> { let mut v = soroban_sdk::Vec::new(&e); for i in l { v.push_back(addrs[*i].clone()); } v };
+        // the pairs the constructor grants, in the order it grants them
+        let (admin0, pairs): (usize, V<(usize, usize)>) = match ctor {
+            Ctor::Bare { admin, pairs } => (*admin, pairs.clone()),
+            Ctor::FeeFwd { admin, manager, executors } => (*admin, std::iter::once((*manager, 0usize)).chain(executors.iter().map(|x| (*x, 1usize))).collect()),
+            Ctor::Timelock { proposers, executors, admin } => (admin.unwrap_or(selfidx.unwrap_or(0)),
+                proposers.iter().flat_map(|x| [(*x, 0usize), (*x, 1usize)]).chain(executors.iter().map(|x| (*x, 2usize))).collect()),
+        };
+        let reg = std::panic::catch_unwind(std::panic::AssertUnwindSafe(|| match ctor {
+            Ctor::Bare { admin, pairs } => {
+                let mut rv: soroban_sdk::Vec<Symbol> = soroban_sdk::Vec::new(&e);
+                for (_, r) in pairs { rv.push_back(roles[*r].clone()); }
+                e.register_at(&cid, bare::Bare, (addrs[*admin].clone(), av(&pairs.iter().map(|p| p.0).collect()), rv))
+            }
+            Ctor::FeeFwd { admin, manager, executors } => e.register_at(&cid, ff_ex::FeeForwarder, (addrs[*admin].clone(), addrs[*manager].clone(), av(executors))),
+            Ctor::Timelock { proposers, executors, admin } => e.register_at(&cid, tl_ex::TimelockController, (10u32, av(proposers), av(executors), admin.map(|a| addrs[a].clone()))),
+        }));
+        let names: V<S> = names.iter().map(|s| s.to_string()).collect();
+        let bare = matches!(ctor, Ctor::Bare { .. });
+        let mut w = LWorld { e, cid, addrs, roles, names, now: start, start, min_ttl: cfg.0, max_ttl: cfg.1, items: vec![], obs0: S::new(), dead: reg.is_err(), admin0, ctor: pairs, selfidx, bare };
+        w.obs0 = if w.dead { "(Build_aobs (Some 998%N) None [] [998%N] [] [])".to_string() } else { w.obs() };
+        w
+    }
+    fn idx(&self, a: &Address) -> usize { self.addrs.iter().position(|x| x == a).unwrap_or(999) }
+    fn ridx(&self, s: &Symbol) -> usize { self.roles.iter().position(|x| x == s).unwrap_or(999) }
+    fn call<T: soroban_sdk::TryFromVal<Env, Val>>(&self, name: &str, args: soroban_sdk::Vec<Val>) -> Option<T> {
+        match self.e.try_invoke_contract::<T, soroban_sdk::Error>(&self.cid, &Symbol::new(&self.e, name), args) { Ok(Ok(v)) => Some(v), _ => None }
+    }
+    fn header(&self) -> S {
+        format!("(Build_lheader (Build_aheader {} {} {} (Some {}) {} {} {} (Build_universe {} {} [])) {})", self.min_ttl, self.max_ttl, self.start, n(self.admin0 as u64), n(MAX_ROLES as u64), n(0), n(1),
+                list(&(0..self.addrs.len()).map(|i| n(i as u64)).collect::<V<_>>()), list(&(0..self.roles.len()).map(|i| n(i as u64)).collect::<V<_>>()),
+                list(&self.ctor.iter().map(|(a, r)| pair(&n(*a as u64), &n(*r as u64))).collect::<V<_>>()))
+    }
+    fn snap(&self) -> Snap {
+        let e = &self.e;
+        let admin = match self.call::<Option<Address>>("get_admin", ().into_val(e)) { Some(a) => a.map(|a| self.idx(&a)), None => Some(998) };
+        let pending: Option<(Address, u32)> = std::panic::catch_unwind(std::panic::AssertUnwindSafe(|| e.as_contract(&self.cid, || {
+            let k = AccessControlStorageKey::PendingAdmin;
+            e.storage().temporary().get::<_, Address>(&k).map(|a| (a, e.storage().temporary().get_ttl(&k)))
+        }))).unwrap_or(None);
+        let pending = pending.map(|(a, t)| (self.idx(&a), self.now + t));
+        let mut role_admin = vec![]; let mut count = vec![]; let mut has = vec![]; let mut members = vec![];
+        for r in &self.roles {
+            role_admin.push(match self.call::<Option<Symbol>>("get_role_admin", (r.clone(),).into_val(e)) { Some(x) => x.map(|s| self.ridx(&s)), None => Some(998) });
+            let (k, kshown) = match self.call::<u32>("get_role_member_count", (r.clone(),).into_val(e)) { Some(k) if k < 100_000 => (k, k), _ => (0, 999_999) };
+            count.push(kshown);
+            has.push(self.addrs.iter().map(|a| match self.call::<Option<u32>>("has_role", (a.clone(), r.clone()).into_val(e)) { Some(x) => x, None => Some(999_999) }).collect());
+            members.push((0..k + 2).map(|i| self.call::<Address>("get_role_member", (r.clone(), i).into_val(e)).map(|a| self.idx(&a))).collect());
+        }
+        Snap { admin, pending, role_admin, count, has, members, tokens: vec![], approved: vec![] }
+    }
+    fn obs(&self) -> S {
+        let s = self.snap();
+        let existing: V<usize> = match self.call::<soroban_sdk::Vec<Symbol>>("get_existing_roles", ().into_val(&self.e)) { Some(v) => v.iter().map(|x| self.ridx(&x)).collect(), None => vec![998] };
+        let roles: V<S> = (0..self.roles.len()).map(|r| {
+            format!("(Build_robs {} {} {} {})", on(s.role_admin[r].map(|x| x as u64)), n(s.count[r] as u64),
+                    list(&s.members[r].iter().map(|m| on(m.map(|x| x as u64))).collect::<V<_>>()),
+                    list(&s.has[r].iter().map(|h| on(h.map(|x| x as u64))).collect::<V<_>>()))
+        }).collect();
+        format!("(Build_aobs {} {} {} {} [] [])", on(s.admin.map(|x| x as u64)),
+                opt(s.pending.map(|(a, l)| pair(&n(a as u64), &z(l as i128)))), list(&roles), list(&existing.iter().map(|r| n(*r as u64)).collect::<V<_>>()))
+    }
+    fn run(&self, name: &str, args: soroban_sdk::Vec<Val>, au: &[usize]) -> bool {
+        let inv = MockAuthInvoke { contract: &self.cid, fn_name: name, args: args.clone(), sub_invokes: &[] };
+        let mas: V<MockAuth> = au.iter().map(|&i| MockAuth { address: &self.addrs[i], invoke: &inv }).collect();
+        self.e.mock_auths(&mas);
+        self.call::<()>(name, args).is_some()
+    }
+    /// the contract's own address never signs (mock_auths would replace the contract by a mock account)
+    fn clean(&self, au: &V<usize>) -> V<usize> { au.iter().cloned().filter(|i| Some(*i) != self.selfidx).collect() }
+    fn exec(&mut self, out: &mut Out, c: &LCallK) -> bool {
+        if self.dead { return false; }
+        let e = self.e.clone();
+        let a = |i: usize| self.addrs[i].clone();
+        let r = |i: usize| self.roles[i].clone();
+        let nn = |i: &usize| n(*i as u64);
+        let s = self.snap();
+        let mut extra: V<S> = vec![];
+        let (text, ok, label): (S, bool, &str) = match c {
+            LCallK::Ac(Call::Grant(acc, ro, ca, au)) => { let au = self.clean(au); extra = classify(&s, &Call::Grant(*acc, *ro, *ca, au.clone()), s.admin, self.roles.len(), s.admin.is_none(), &self.names);
+                (format!("LCall (Grant {} {} {} {})", nn(acc), nn(ro), nn(ca), auths_s(&au)), self.run("grant_role", (a(*acc), r(*ro), a(*ca)).into_val(&e), &au), "l_grant") }
+            LCallK::Ac(Call::Revoke(acc, ro, ca, au)) => { let au = self.clean(au); extra = classify(&s, &Call::Revoke(*acc, *ro, *ca, au.clone()), s.admin, self.roles.len(), s.admin.is_none(), &self.names);
+                if self.ctor.iter().filter(|p| **p == (*acc, *ro)).count() > 1 { extra.push("revoke-of-pair-listed-twice-by-constructor".into()); }
+                (format!("LCall (Revoke {} {} {} {})", nn(acc), nn(ro), nn(ca), auths_s(&au)), self.run("revoke_role", (a(*acc), r(*ro), a(*ca)).into_val(&e), &au), "l_revoke") }
+            LCallK::Ac(Call::RenounceRole(ro, ca, au)) => { let au = self.clean(au);
+                (format!("LCall (RenounceRole {} {} {})", nn(ro), nn(ca), auths_s(&au)), self.run("renounce_role", (r(*ro), a(*ca)).into_val(&e), &au), "l_renounce_role") }
+            LCallK::Ac(Call::SetRoleAdmin(ro, ar, au)) => { let au = self.clean(au);
+                (format!("LCall (SetRoleAdmin {} {} {})", nn(ro), nn(ar), auths_s(&au)), self.run("set_role_admin", (r(*ro), r(*ar)).into_val(&e), &au), "l_set_role_admin") }
+            LCallK::Ac(Call::TransferAdmin(new, lu, au)) => { let au = self.clean(au);
+                (format!("LCall (TransferAdmin {} {} {})", nn(new), lu, auths_s(&au)), self.run("transfer_admin_role", (a(*new), *lu).into_val(&e), &au), "l_transfer_admin") }
+            LCallK::Ac(Call::AcceptAdmin(au)) => { let au = self.clean(au); (format!("LCall (AcceptAdmin {})", auths_s(&au)), self.run("accept_admin_transfer", ().into_val(&e), &au), "l_accept_admin") }
+            LCallK::Ac(Call::RenounceAdmin(au)) => { let au = self.clean(au); (format!("LCall (RenounceAdmin {})", auths_s(&au)), self.run("renounce_admin", ().into_val(&e), &au), "l_renounce_admin") }
+            LCallK::Ac(Call::Advance(k)) => { self.now += *k; let nw = self.now; e.ledger().with_mut(|l| l.sequence_number = nw); if *k >= 17281 { out.label("advance-long/ok"); } (format!("LCall (Access.Advance {})", n(*k as u64)), true, "l_advance") }
+            LCallK::Ac(_) => return false,
+            _ if !self.bare => return false,
+            LCallK::GrantNa(acc, ro) => {
+                extra.push(if s.has[*ro][*acc].is_some() { "grant_no_auth-to-holder".into() } else if s.count[*ro] == 0 { "grant_no_auth-first-member".into() } else { "grant_no_auth-new-member".into() });
+                (format!("GrantNoAuth {} {}", nn(acc), nn(ro)), self.run("grant_na", (a(*acc), r(*ro)).into_val(&e), &[]), "grant_no_auth") }
+            LCallK::RevokeNa(acc, ro) => {
+                extra.push(match s.has[*ro][*acc] { Some(i) => { let k = s.count[*ro]; format!("revoke_no_auth-{}", if k == 1 { "only" } else if i == 0 { "first" } else if i + 1 == k { "last" } else { "middle" }) } None => "revoke_no_auth-nonmember".into() });
+                (format!("RevokeNoAuth {} {}", nn(acc), nn(ro)), self.run("revoke_na", (a(*acc), r(*ro)).into_val(&e), &[]), "revoke_no_auth") }
+            LCallK::SetRaNa(ro, ar) => (format!("SetRoleAdminNoAuth {} {}", nn(ro), nn(ar)), self.run("set_ra_na", (r(*ro), r(*ar)).into_val(&e), &[]), "set_role_admin_no_auth"),
+            LCallK::RemoveRaNa(ro) => {
+                extra.push(if s.role_admin[*ro].is_some() { "remove_role_admin_no_auth-present".into() } else { "remove_role_admin_no_auth-absent".into() });
+                (format!("RemoveRoleAdminNoAuth {}", nn(ro)), self.run("remove_ra_na", (r(*ro),).into_val(&e), &[]), "remove_role_admin_no_auth") }
+            LCallK::RemoveCntNa(ro) => {
+                // the answer for an empty role depends on whether the count key still exists (not a getter): it is an input of the model's call
+                let ok = self.run("remove_cnt_na", (r(*ro),).into_val(&e), &[]);
+                extra.push(if s.count[*ro] > 0 { "remove_count_no_auth-role-has-members".into() } else { "remove_count_no_auth-empty-role".into() });
+                (format!("RemoveCountNoAuth {} {}", nn(ro), b(ok)), ok, "remove_count_no_auth") }
+            LCallK::EnsureAuth(ro, ca) => {
+                let is_ra = match s.role_admin[*ro] { Some(ar) if ar < self.roles.len() => s.has[ar][*ca].is_some(), _ => false };
+                let holds_any = (0..self.roles.len()).any(|x| s.has[x][*ca].is_some());
+                let holds_sentinel = (0..self.roles.len()).any(|x| s.has[x][*ca].is_some() && is_sentinel(&self.names[x]));
+                extra.push(format!("ensure_authority-by-{}", if s.admin == Some(*ca) { "admin" } else if is_ra { "role-admin" } else if holds_sentinel && s.role_admin[*ro].is_none() { "holder-of-sentinel-named-role-no-admin-role" } else if holds_any { "holder-of-other-role" } else { "stranger" }));
+                (format!("EnsureAuthority {} {}", nn(ro), nn(ca)), self.run("ensure_auth", (r(*ro), a(*ca)).into_val(&e), &[]), "ensure_authority") }
+            LCallK::EnsureRole(ro, ca) => {
+                extra.push(if s.has[*ro][*ca].is_some() { "ensure_role-holder".into() } else { "ensure_role-nonholder".into() });
+                (format!("EnsureRole {} {}", nn(ro), nn(ca)), self.run("ensure_role_ep", (r(*ro), a(*ca)).into_val(&e), &[]), "ensure_role") }
+        };
+        self.e.mock_auths(&[]);
+        let oc = if ok { "ok" } else { "fail" };
+        for l in extra { out.label(&format!("{}/{}", l, oc)); }
+        out.case(&format!("{}/{}", label, oc), &format!("{} #{}", text, self.items.len()));
+        self.items.push(format!("({}, {}, {})", text, b(ok), self.obs()));
+        ok
+    }
+    fn flush(self, out: &mut Out, desc: &str) {
+        if self.dead { out.label("constructor/trap"); }
+        else {
+            // what kind of list the constructor was given
+            let mut sorted = self.ctor.clone(); sorted.sort(); let before = sorted.len(); sorted.dedup();
+            if sorted.len() < before { out.label("ctor-pair-listed-twice/ok"); }
+            if self.ctor.is_empty() { out.label("ctor-empty-list/ok"); }
+            if self.ctor.iter().any(|p| p.0 == self.admin0) { out.label("ctor-admin-among-members/ok"); }
+            if self.ctor.iter().any(|p| Some(p.0) == self.selfidx) { out.label("ctor-own-address-among-members/ok"); }
+            if Some(self.admin0) == self.selfidx { out.label("ctor-contract-is-its-own-admin/ok"); }
+            if self.ctor.iter().any(|p| self.ctor.iter().any(|q| q.0 == p.0 && q.1 != p.1)) { out.label("ctor-account-under-two-roles/ok"); }
+            if self.ctor.iter().any(|p| self.names[p.1].is_empty()) { out.label("ctor-empty-named-role/ok"); }
+        }
+        let nn = std::cmp::max(self.items.len(), 1);
+        let term = format!("(TLow {} {} {})", self.header(), self.obs0, list(&self.items));
+        out.trace(desc, term, nn);
+    }
+}
+
+const FF_ROLES: [&str; 4] = ["manager", "executor", "", "auditor"];
+const TL_ROLES: [&str; 4] = ["proposer", "canceller", "executor", ""];
+const BARE_ROLES: [&str; 5] = ["minter", "burner", "manager", "", LONG32];
+
+/// a list of accounts as a caller would supply it: short, with repetitions, sometimes empty
+fn account_list(rng: &mut Rng, pool: usize) -> V<usize> {
+    let k = match rng.below(8) { 0 => 0, 1 | 2 => 1, 3 | 4 => 2, 5 => 3, 6 => 4, _ => 6 };
+    let mut v: V<usize> = vec![];
+    for _ in 0..k { let x = if !v.is_empty() && rng.chance(2, 5) { *rng.pick(&v) } else { rng.below(pool as u64) as usize }; v.push(x); }
+    v
+}
+
+fn random_low(out: &mut Out, rng: &mut Rng, kind: usize, len: usize, desc: &str) {
+    let naddr = 5usize;
+    let cfg = match rng.below(3) { 0 => (1u32, 5000u32, 4096u32), 1 => (1, 6_312_000, 4096), _ => (1, 8_000_000, 7_999_999) };
+    let with_self = rng.chance(1, 3);
+    let pool = if with_self { naddr + 1 } else { naddr };
+    let admin0 = rng.below(naddr as u64) as usize;
+    let (ctor, names): (Ctor, V<&str>) = match kind {
+        0 => { let nr = BARE_ROLES.len(); let accs = account_list(rng, pool);
+               let mut pairs: V<(usize, usize)> = vec![];
+               for x in accs { let p = if !pairs.is_empty() && rng.chance(1, 3) { *rng.pick(&pairs) } else { (x, rng.below(nr as u64) as usize) }; pairs.push(p); }
+               (Ctor::Bare { admin: admin0, pairs }, BARE_ROLES.to_vec()) }
+        1 => (Ctor::FeeFwd { admin: admin0, manager: if rng.chance(1, 4) { admin0 } else { rng.below(pool as u64) as usize }, executors: account_list(rng, pool) }, FF_ROLES.to_vec()),
+        _ => (Ctor::Timelock { proposers: account_list(rng, pool), executors: account_list(rng, pool), admin: if with_self && rng.chance(1, 4) { None } else { Some(admin0) } }, TL_ROLES.to_vec()),
+    };
+    let mut w = LWorld::new(&ctor, &names, naddr, with_self, cfg);
+    let nroles = names.len();
+    for _ in 0..len {
+        if w.dead { break; }
+        let s = w.snap();
+        let admin = s.admin;
+        let members_of = |r: usize| -> V<usize> { (0..pool).filter(|&x| s.has[r][x].is_some()).collect() };
+        let rnd_a = rng.below(pool as u64) as usize; let rnd_r = rng.below(nroles as u64) as usize;
+        // a role that has members, preferably
+        let live: V<usize> = (0..nroles).filter(|&r| s.count[r] > 0 && s.count[r] < 100_000).collect();
+        let lr = if !live.is_empty() && rng.chance(4, 5) { *rng.pick(&live) } else { rnd_r };
+        let member = |rng: &mut Rng, r: usize| -> usize { let m = members_of(r); if m.is_empty() || rng.chance(1, 6) { rnd_a } else { let k = m.len(); match rng.below(3) { 0 => s.members[r][0].unwrap_or(rnd_a), 1 => s.members[r][k - 1].unwrap_or(rnd_a), _ => *rng.pick(&m) } } };
+        let caller_for = |rng: &mut Rng, r: usize| -> usize {
+            let ar: V<usize> = match s.role_admin[r] { Some(ar) if ar < nroles => members_of(ar), _ => vec![] };
+            match rng.below(10) { 0..=4 => admin.filter(|a| *a < naddr).unwrap_or(rnd_a), 5 | 6 => if ar.is_empty() { rnd_a } else { *rng.pick(&ar) }, 7 => { let m = members_of(r); if m.is_empty() { rnd_a } else { *rng.pick(&m) } }, _ => rnd_a }
+        };
+        let x = rng.below(100);
+        let low = matches!(ctor, Ctor::Bare { .. }) && x < 45;
+        let call = if low {
+            match x {
+                0..=11 => { let r = if rng.chance(1, 2) { lr } else { rnd_r }; LCallK::GrantNa(if rng.chance(1, 3) { member(rng, r) } else { rnd_a }, r) }
+                12..=23 => LCallK::RevokeNa(member(rng, lr), lr),
+                24..=28 => LCallK::SetRaNa(rnd_r, rng.below(nroles as u64) as usize),
+                29 => LCallK::RemoveCntNa(rnd_r),
+                30..=32 => { let with: V<usize> = (0..nroles).filter(|&r| s.role_admin[r].is_some()).collect(); LCallK::RemoveRaNa(if !with.is_empty() && rng.chance(2, 3) { *rng.pick(&with) } else { rnd_r }) }
+                33..=39 => { let r = rnd_r; LCallK::EnsureAuth(r, caller_for(rng, r)) }
+                _ => LCallK::EnsureRole(lr, member(rng, lr)),
+            }
+        } else {
+            match rng.below(100) {
+                0..=27 => { let r = if rng.chance(1, 2) { lr } else { rnd_r }; let ca = caller_for(rng, r); LCallK::Ac(Call::Grant(if rng.chance(1, 4) { member(rng, r) } else { rnd_a }, r, ca, pick_auths(rng, ca, admin, naddr))) }
+                28..=55 => { let ca = caller_for(rng, lr); let acc = member(rng, lr); LCallK::Ac(Call::Revoke(acc, lr, ca, pick_auths(rng, ca, Some(acc).filter(|a| *a < naddr), naddr))) }
+                56..=65 => { let ca = member(rng, lr); LCallK::Ac(Call::RenounceRole(lr, ca, pick_auths(rng, ca, admin, naddr))) }
+                66..=75 => { let au = match admin { Some(a) if a < naddr => pick_auths(rng, a, Some(rnd_a).filter(|a| *a < naddr), naddr), _ => vec![rng.below(naddr as u64) as usize] }; LCallK::Ac(Call::SetRoleAdmin(rnd_r, rng.below(nroles as u64) as usize, au)) }
+                76..=81 => { let au = match admin { Some(a) if a < naddr => pick_auths(rng, a, None, naddr), _ => vec![rng.below(naddr as u64) as usize] }; LCallK::Ac(Call::TransferAdmin(rnd_a, w.now + 1 + rng.below(50) as u32, au)) }
+                82..=86 => { let p = s.pending.map(|p| p.0).filter(|a| *a < naddr).unwrap_or(rng.below(naddr as u64) as usize); LCallK::Ac(Call::AcceptAdmin(pick_auths(rng, p, admin.filter(|a| *a < naddr), naddr))) }
+                87..=88 => { let au = match admin { Some(a) if a < naddr && rng.chance(1, 3) => vec![a], _ => vec![rng.below(naddr as u64) as usize] }; LCallK::Ac(Call::RenounceAdmin(au)) }
+                _ => LCallK::Ac(Call::Advance(match rng.below(5) { 0 => 0, 1 => rng.below(40) as u32, _ => *rng.pick(&[20u32, 100, 17281, 600000, 1_555_201, 4_000_000]) })),
+            }
+        };
+        w.exec(out, &call);
+    }
+    w.flush(out, desc);
 }
 
 // ------------------------------------------------------------------ ownable world (#[only_owner])
@@ -691,7 +1003,7 @@ fn random_own(out: &mut Out, rng: &mut Rng, len: usize, desc: &str) {
 }
 
 fn main() {
-    let mut out = Out::new("From SC Require Import Lib.Prelude Lib.Int Lib.Host Model.RoleTransfer Model.Access Model.AllowList Run.C07 Run.C06.\nOpen Scope Z_scope.", "check_all");
+    let mut out = Out::new("From SC Require Import Lib.Prelude Lib.Int Lib.Host Model.RoleTransfer Model.Access Model.AllowList Model.AccessLow Run.C07 Run.C06.\nOpen Scope Z_scope.", "check_all");
     out.per_shard(350);
     let mut rng = Rng::new(out.cfg.seed);
     let thorough = out.cfg.thorough;
@@ -758,8 +1070,9 @@ fn main() {
         for c in [ACallK::Allow(2, 0, vec![0]), ACallK::Allow(2, 1, vec![]), ACallK::Allow(2, 1, vec![0]), ACallK::Allow(2, 1, vec![1]), ACallK::Allow(2, 1, vec![1]), ACallK::Allow(3, 1, vec![1]),
                   ACallK::Disallow(3, 2, vec![2]), ACallK::Disallow(3, 1, vec![1]), ACallK::Disallow(3, 1, vec![1]), ACallK::Ac(Advance(17281)), ACallK::Ac(Advance(4_000_000)),
                   ACallK::Allow(4, 1, vec![1]), ACallK::Ac(Grant(3, 0, 0, vec![0])), ACallK::Allow(3, 3, vec![3]), ACallK::Ac(Revoke(1, 0, 0, vec![0])), ACallK::Disallow(2, 1, vec![1]), ACallK::Disallow(2, 3, vec![3]),
-                  ACallK::Ac(Advance(4_000_000)), ACallK::Ac(RenounceRole(0, 3, vec![3])), ACallK::Allow(2, 3, vec![3]), ACallK::Ac(Advance(1_555_201)), ACallK::Disallow(0, 0, vec![0])] { w.exec(&mut out, &c); }
-        w.flush(&mut out, "corpus/allowlist", 5, 3);
+                  ACallK::Ac(Advance(4_000_000)), ACallK::Ac(RenounceRole(0, 3, vec![3])), ACallK::Allow(2, 3, vec![3]), ACallK::Ac(Advance(1_555_201)), ACallK::Disallow(0, 0, vec![0]),
+                  ACallK::Ac(Grant(3, 3, 0, vec![0])), ACallK::Allow(2, 3, vec![3]), ACallK::Ac(Grant(4, 0, 3, vec![3])), ACallK::Ac(Revoke(1, 0, 3, vec![3])), ACallK::Ac(Grant(4, 0, 0, vec![0])), ACallK::Ac(Revoke(4, 0, 3, vec![3]))] { w.exec(&mut out, &c); }
+        w.flush(&mut out, "corpus/allowlist", 5, AL_ROLES.len());
     }
     {
         // the constructor's admin is also the manager (account 2); another trace with admin 3, manager 4
@@ -767,10 +1080,83 @@ fn main() {
         for c in [ACallK::Allow(0, 2, vec![2]), ACallK::Allow(1, 0, vec![0]), ACallK::Disallow(2, 2, vec![2]), ACallK::Ac(Revoke(2, 0, 2, vec![2])), ACallK::Allow(1, 2, vec![2]),
                   ACallK::Ac(Grant(1, 0, 2, vec![2])), ACallK::Allow(1, 1, vec![1]), ACallK::Ac(SetRoleAdmin(0, 1, vec![2])), ACallK::Ac(RenounceRole(0, 1, vec![1])), ACallK::Disallow(1, 1, vec![1]),
                   ACallK::Ac(TransferAdmin(3, 150, vec![2])), ACallK::Ac(AcceptAdmin(vec![3])), ACallK::Ac(Grant(4, 0, 3, vec![3])), ACallK::Allow(3, 4, vec![4]), ACallK::Ac(RenounceAdmin(vec![3])), ACallK::Disallow(3, 4, vec![4])] { w.exec(&mut out, &c); }
-        w.flush(&mut out, "corpus/allowlist-admin-is-manager", 5, 3);
+        w.flush(&mut out, "corpus/allowlist-admin-is-manager", 5, AL_ROLES.len());
         let mut w = AWorld::new_with(5, &AL_ROLES, 100, 1, 6_312_000, 4096, 3, 4);
         for c in [ACallK::Allow(0, 4, vec![4]), ACallK::Allow(0, 3, vec![3]), ACallK::Disallow(3, 4, vec![]), ACallK::Disallow(3, 4, vec![3]), ACallK::Disallow(3, 4, vec![4]), ACallK::Ac(Advance(4_000_000)), ACallK::Allow(3, 4, vec![4])] { w.exec(&mut out, &c); }
-        w.flush(&mut out, "corpus/allowlist-other-accounts", 5, 3);
+        w.flush(&mut out, "corpus/allowlist-other-accounts", 5, AL_ROLES.len());
+    }
+    // ---- boundary role names: the empty symbol (the library's sentinel for "no previous admin role"), "admin", DEFAULT_ADMIN_ROLE, a
+    // 32-character name.  Holding such a role gives NO authority over a role that has no admin role configured - before and after
+    // renounce_admin -; made an admin role explicitly (set_role_admin(minter, "")) it governs like any other role.
+    {
+        let sent6 = ["minter", "burner", "", "admin", "DEFAULT_ADMIN_ROLE", LONG32];
+        let mut calls: V<Call> = vec![];
+        for x in 2..6usize {
+            calls.extend([Grant(1, x, 0, vec![0]), Grant(2, 0, 1, vec![1]), Grant(2, x, 1, vec![1]), Revoke(1, x, 1, vec![1]), Grant(3, 1, 0, vec![0]), Revoke(3, 1, 1, vec![1]),
+                          Mint(1, 0, 1, vec![1]), RenounceRole(x, 1, vec![1])]);
+        }
+        calls.extend([Grant(1, 2, 0, vec![0]), SetRoleAdmin(0, 2, vec![0]), Grant(2, 0, 1, vec![1]), Grant(2, 1, 1, vec![1]), SetRoleAdmin(2, 2, vec![0]), Grant(3, 2, 1, vec![1]),
+                      Grant(1, 1, 1, vec![1]), Grant(0, 0, 0, vec![0]), TransferAdmin(0, 300, vec![0]), AcceptAdmin(vec![0]), AdminRestricted(vec![0]),
+                      RenounceAdmin(vec![0]), Grant(4, 1, 1, vec![1]), Revoke(3, 1, 1, vec![1]), Grant(4, 3, 3, vec![3]), Grant(4, 0, 3, vec![3]), Mint(4, 1, 4, vec![4]),
+                      Revoke(1, 2, 3, vec![3]), Grant(4, 1, 1, vec![1]), Revoke(3, 2, 3, vec![3]), Grant(1, 2, 3, vec![3])]);
+        scripted_ac(&mut out, &sent6, 5, &calls, "corpus/sentinel-role-names");
+    }
+    // ---- the contract's own address (account 5) as a party of every call kind: grantee, named caller, new admin, token receiver, approved
+    // spender.  It holds roles like anybody else but can never authorise anything.
+    scripted_ac_full(&mut out, &std4, 5, (1, 5000, 4096), true, &[
+        Grant(5, 0, 0, vec![0]), Grant(5, 1, 0, vec![0]), Grant(5, 2, 0, vec![0]), SetRoleAdmin(3, 2, vec![0]), Grant(1, 3, 5, vec![]), Grant(1, 3, 5, vec![1]), Grant(1, 3, 5, vec![0]),
+        Mint(5, 0, 5, vec![]), Mint(5, 0, 5, vec![0]), MultiRoleAction(5, vec![]), MultiRoleAuthAction(5, vec![1]), Grant(1, 0, 0, vec![0]), Mint(5, 0, 1, vec![1]), Burn(5, 0, vec![]), BurnFrom(5, 5, 0, vec![]),
+        Grant(1, 1, 0, vec![0]), BurnFrom(1, 5, 0, vec![1]), Approve(5, 1, 0, 4000, vec![]), RenounceRole(2, 5, vec![]), RenounceRole(2, 5, vec![0]), Revoke(5, 2, 5, vec![]), Revoke(5, 2, 0, vec![0]),
+        TransferAdmin(5, 300, vec![0]), AcceptAdmin(vec![]), AcceptAdmin(vec![0]), AdminRestricted(vec![]), Advance(300), TransferAdmin(5, 0, vec![0]), AdminRestricted(vec![0]), Revoke(5, 0, 0, vec![0]), Mint(1, 1, 5, vec![])], "corpus/own-address-as-party");
+    // ---- constructors that grant roles to caller-supplied account lists through grant_role_no_auth, and the no-auth entry points
+    {
+        use LCallK::*;
+        // fee-forwarder-permissioned: the same relayer listed three times, then revoked (no ghost member may stay), re-granted, ...
+        let mut w = LWorld::new(&Ctor::FeeFwd { admin: 0, manager: 1, executors: vec![2, 2, 3, 2] }, &FF_ROLES, 5, false, (1, 5000, 4096));
+        for c in [Ac(Revoke(2, 1, 0, vec![0])), Ac(Grant(2, 1, 0, vec![0])), Ac(Revoke(3, 1, 0, vec![0])), Ac(Revoke(2, 1, 0, vec![0])), Ac(Revoke(2, 1, 0, vec![0])), Ac(Grant(4, 1, 1, vec![1])),
+                  Ac(SetRoleAdmin(1, 0, vec![0])), Ac(Grant(4, 1, 1, vec![1])), Ac(Grant(3, 2, 0, vec![0])), Ac(Grant(2, 3, 3, vec![3])), Ac(RenounceRole(1, 4, vec![4])), Ac(Advance(4_000_000)),
+                  Ac(Revoke(1, 0, 0, vec![0])), Ac(Grant(2, 1, 1, vec![1]))] { w.exec(&mut out, &c); }
+        w.flush(&mut out, "corpus/ctor-feefwd-duplicate-executors");
+        // admin = manager = the only executor, listed twice
+        let mut w = LWorld::new(&Ctor::FeeFwd { admin: 0, manager: 0, executors: vec![0, 0] }, &FF_ROLES, 5, false, (1, 6_312_000, 4096));
+        for c in [Ac(Revoke(0, 1, 0, vec![0])), Ac(Revoke(0, 1, 0, vec![0])), Ac(RenounceRole(0, 0, vec![0])), Ac(Grant(0, 1, 0, vec![0])), Ac(RenounceAdmin(vec![0])), Ac(Grant(1, 1, 0, vec![0]))] { w.exec(&mut out, &c); }
+        w.flush(&mut out, "corpus/ctor-feefwd-admin-is-everything");
+        // the contract's own address as manager and (twice) as executor; an empty executor list
+        let mut w = LWorld::new(&Ctor::FeeFwd { admin: 0, manager: 5, executors: vec![5, 1, 5] }, &FF_ROLES, 5, true, (1, 5000, 4096));
+        for c in [Ac(Grant(2, 1, 5, vec![])), Ac(Revoke(5, 1, 0, vec![0])), Ac(Revoke(5, 1, 0, vec![0])), Ac(RenounceRole(0, 5, vec![])), Ac(Grant(5, 1, 0, vec![0])), Ac(TransferAdmin(5, 300, vec![0])), Ac(AcceptAdmin(vec![])), Ac(Revoke(5, 0, 0, vec![0]))] { w.exec(&mut out, &c); }
+        w.flush(&mut out, "corpus/ctor-feefwd-own-address");
+        let mut w = LWorld::new(&Ctor::FeeFwd { admin: 2, manager: 3, executors: vec![] }, &FF_ROLES, 5, false, (1, 5000, 4096));
+        for c in [Ac(Revoke(3, 1, 2, vec![2])), Ac(Grant(3, 1, 2, vec![2])), Ac(Revoke(3, 1, 2, vec![2])), Ac(Revoke(3, 0, 2, vec![2]))] { w.exec(&mut out, &c); }
+        w.flush(&mut out, "corpus/ctor-feefwd-empty-list");
+        // timelock-controller: a proposer listed twice (proposer + canceller each time), an account in both lists, an executor listed twice
+        let mut w = LWorld::new(&Ctor::Timelock { proposers: vec![1, 1, 2], executors: vec![1, 3, 3], admin: Some(0) }, &TL_ROLES, 5, false, (1, 5000, 4096));
+        for c in [Ac(Revoke(1, 0, 0, vec![0])), Ac(Revoke(1, 1, 0, vec![0])), Ac(Revoke(3, 2, 0, vec![0])), Ac(Revoke(3, 2, 0, vec![0])), Ac(Revoke(1, 0, 0, vec![0])), Ac(Grant(1, 0, 0, vec![0])), Ac(RenounceRole(0, 2, vec![2])),
+                  Ac(Grant(4, 3, 0, vec![0])), Ac(Grant(4, 2, 4, vec![4])), Ac(Advance(600_000)), Ac(Revoke(1, 2, 0, vec![0])), Ac(Revoke(2, 1, 0, vec![0])), Ac(Revoke(1, 0, 0, vec![0]))] { w.exec(&mut out, &c); }
+        w.flush(&mut out, "corpus/ctor-timelock-duplicates");
+        // timelock-controller administering itself (admin = None), its own address among proposers and (twice) executors: nobody passes an admin check
+        let mut w = LWorld::new(&Ctor::Timelock { proposers: vec![5, 1], executors: vec![5, 5], admin: None }, &TL_ROLES, 5, true, (1, 5000, 4096));
+        for c in [Ac(Grant(2, 0, 5, vec![])), Ac(Grant(2, 0, 1, vec![1])), Ac(Revoke(5, 2, 0, vec![0])), Ac(Revoke(5, 2, 1, vec![1])), Ac(TransferAdmin(0, 300, vec![0])), Ac(RenounceAdmin(vec![0])), Ac(SetRoleAdmin(0, 1, vec![1])),
+                  Ac(RenounceRole(0, 1, vec![1])), Ac(RenounceRole(2, 5, vec![])), Ac(AcceptAdmin(vec![1]))] { w.exec(&mut out, &c); }
+        w.flush(&mut out, "corpus/ctor-timelock-self-administered");
+        // the bare wrapper: a list with a pair named three times, the admin among the members, one account under several roles, boundary role
+        // names; then every no-auth entry point in every situation (holder / new / first, revoke first / middle / last / only / non-member,
+        // admin role present / absent, the guards for admin / role admin / holder of a sentinel-named role / stranger), interleaved with authorised calls
+        let mut w = LWorld::new(&Ctor::Bare { admin: 0, pairs: vec![(1, 2), (1, 2), (0, 2), (1, 0), (3, 2), (1, 2), (2, 3), (2, 4)] }, &BARE_ROLES, 5, true, (1, 5000, 4096));
+        for c in [GrantNa(4, 2), GrantNa(1, 2), GrantNa(1, 2), RemoveCntNa(2), RevokeNa(1, 2), RevokeNa(0, 2), RevokeNa(3, 2), RevokeNa(4, 2), RevokeNa(4, 2), RemoveCntNa(2), RemoveCntNa(2), RemoveCntNa(0), RemoveCntNa(1), GrantNa(2, 1),
+                  EnsureAuth(0, 0), EnsureAuth(0, 2), EnsureAuth(0, 4), EnsureAuth(0, 5), EnsureRole(0, 5), SetRaNa(0, 3), EnsureAuth(0, 2), Ac(Grant(4, 0, 2, vec![2])), EnsureAuth(1, 1), RemoveRaNa(0), RemoveRaNa(0), EnsureAuth(0, 2),
+                  Ac(Grant(3, 0, 2, vec![2])), EnsureRole(0, 1), EnsureRole(0, 3), SetRaNa(2, 2), Ac(RenounceAdmin(vec![0])), GrantNa(3, 2), Ac(Grant(0, 2, 3, vec![3])), Ac(Advance(4_000_000)),
+                  RevokeNa(3, 2), Ac(Revoke(0, 2, 3, vec![3])), EnsureAuth(0, 0), GrantNa(0, 2), GrantNa(0, 2), Ac(Revoke(0, 2, 0, vec![0])),
+                  EnsureAuth(0, 5), EnsureRole(4, 5), GrantNa(5, 4), EnsureAuth(1, 5), EnsureRole(4, 5), Ac(Grant(1, 1, 5, vec![])), RevokeNa(5, 4)] { w.exec(&mut out, &c); }
+        w.flush(&mut out, "corpus/bare-no-auth-entry-points");
+        // the contract itself as admin, nothing granted at birth; its own address granted and revoked through the no-auth entry points
+        let mut w = LWorld::new(&Ctor::Bare { admin: 5, pairs: vec![] }, &BARE_ROLES, 5, true, (1, 6_312_000, 4096));
+        for c in [GrantNa(5, 0), GrantNa(5, 0), Ac(Grant(1, 0, 5, vec![])), EnsureAuth(0, 5), EnsureAuth(0, 1), Ac(Revoke(5, 0, 0, vec![0])), EnsureRole(0, 5), RevokeNa(5, 0), RevokeNa(5, 0), GrantNa(1, 3), EnsureAuth(0, 1), Ac(Grant(2, 0, 1, vec![1]))] { w.exec(&mut out, &c); }
+        w.flush(&mut out, "corpus/bare-own-address-admin");
+    }
+    let nlow = (if thorough { 120 } else { 12 }) * out.cfg.scale as usize;
+    for i in 0..nlow * 3 {
+        let mut r = rng.fork(3_000_000 + i as u64);
+        random_low(&mut out, &mut r, i % 3, if thorough { 45 } else { 26 }, &format!("random-low/{}", i));
     }
     let nal = (if thorough { 400 } else { 40 }) * out.cfg.scale as usize;
     for i in 0..nal {
